@@ -160,6 +160,8 @@ class Interp:
         raise Unsupported(f"unresolved name {name}")
 
     def dotted_value(self, dotted):
+        if dotted in registry.CLASS_OF and dotted in registry.CONTRACTS:
+            return ClassRef(dotted)  # a modelled class that also has a call-site contract for its constructor
         if dotted in registry.CONTRACTS:
             return FuncRef(dotted)
         if dotted in registry.EXTERNALS:
@@ -872,7 +874,9 @@ class Interp:
                     else:
                         raise Unsupported(f"record {rn}: missing field {nme}")
             return Record(rn, {nme: fields[nme] for nme in names})
-        ctor = registry.CONTRACTS.get(d + ".__init__") or registry.CONTRACTS.get(d)
+        ctor = registry.CONTRACTS.get(d + ".__init__")
+        if ctor is None or ctor.params.get("self") == "PyObj":  # an __init__ contract on the object under construction is for its body only
+            ctor = registry.CONTRACTS.get(d) or (None if ctor is not None and ctor.params.get("self") == "PyObj" and d not in registry.CONTRACTS else ctor)
         if ctor is not None:
             return self.call_contract(ctor, args, kwargs, st)
         h = registry.EXTERNALS.get(d)
@@ -1021,7 +1025,10 @@ class Interp:
         """(names, defaults) from the real source if available, else from the contract."""
         if True:
             try:
-                fi = extract.find_function(c.qualname)
+                try:
+                    fi = extract.find_function(c.qualname)
+                except extract.ExtractError:
+                    fi = extract.find_function(c.qualname + ".__init__")  # a contract on a class: the signature of its constructor
                 a = fi.node.args
                 names = [x.arg for x in a.posonlyargs + a.args]
                 defaults = {}
